@@ -29,6 +29,7 @@ func runC15(c *Ctx) {
 	r.Rule("C15.R2", "updateFromRemoteDescription: over (exact list empty?, partial list empty?) the final selection pushes exactly the exact list when it is non-empty, else exactly the partial list, else nothing; the kind passed to pushCodecs is the kind used for matching", 6)
 	r.Rule("C15.R3", "every add is preceded, within its iteration, by remoteCodec.RTCPFeedback = rtcpFeedbackIntersection(localCodec.RTCPFeedback, remoteCodec.RTCPFeedback) with localCodec the match result for that remote codec; rtcpFeedbackIntersection appends an element of one operand only under equality of both Type and Parameter with an element of the other", 7)
 	r.Rule("C15.R4", "getCodecsByKind and getCodecByPayload over (kind, negotiatedVideo, negotiatedAudio): a registered list is consulted only when its kind is not negotiated; negotiated lists are consulted before registered ones; the returned kind is the kind of the list that produced the codec", 21)
+	r.Rule("C15.R6", "the H.264 profile comparison behind an exact match (profileLevelIDMatches), tabulated over decodability, length and byte values of both profile-level-ids, is true exactly when both decode to at least two bytes and agree on profile_idc and profile-iop (bytes 0 and 1); the level byte is ignored (RFC 6184)", 16)
 	r.Rule("C15.R5", "codecParametersFuzzySearch: Exact is returned only on fmtp.Parse(needle).Match(fmtp.Parse(c)) for the returned haystack element c; Partial only after the exact scan has completed, under EqualFold(mime) and ClockRateEqual and ChannelsEqual of c and needle, returning c; every other return is None", 4)
 	r.NotCovered = append(r.NotCovered,
 		"apt rewriting in matchRemoteCodec (which local RTX a remote RTX is matched against)",
@@ -45,6 +46,7 @@ func runC15(c *Ctx) {
 	c15CodecListWrites(c, "C15.R1", true)
 	c15R4(c, "C15.R4")
 	c15R5(c, "C15.R5")
+	c15R6(c, "C15.R6")
 }
 
 // c15Upd holds the resolved anchors of updateFromRemoteDescription.
